@@ -21,7 +21,7 @@ from .. import libstate
 import mitxgraders.helpers.calc.expressions as X
 from mitxgraders.helpers.calc import exceptions as CE
 from mitxgraders.exceptions import MITxError
-from mitxgraders import FormulaGrader, DependentSampler
+from mitxgraders import FormulaGrader, MatrixGrader, DependentSampler
 
 EXTRA_HASH_SEEDS = {'thorough': ('1',)}           # name sets: their iteration order feeds messages and sampling order
 PROPERTY = 'C10'
@@ -188,9 +188,17 @@ STRINGS_Q = ['x+y', 'x + y', 'X+y', 'f(x)', 'x', '2k', 'x+', 'f(x', '2x(', 'x y'
 STRINGS_T = STRINGS_Q + ['x+\ty', 'f', 'sin(x)+sin(y)', '(x))', '']
 FULL_V = {'x': 2.0, 'y': 3.0, 'X': 5.0, 'f': 7.0, 'xy': 11.0}
 FULL_F = {'f': lambda t: t + 1, 'sin': math.sin}
+
+
+def _full_f():
+    from mitxgraders.helpers.calc.mathfuncs import DEFAULT_FUNCTIONS
+    d = dict(FULL_F)
+    d['ln'] = DEFAULT_FUNCTIONS['ln']
+    return d
 FULL_S = {'k': 1000.0}
 MISS_V = {'x': 2.0}
 ARRAY_STRS = ['[x, y]', '1e999', 'x+y', 'x']       # the strings on which the array / infinity variants of eval are explored
+GRADE_STRS = ['f(x)', 'x+y', '[[1,2],[2,4]]^-1', 'ln(0)+[1,2]/0']     # graded in the quick tier too (see events)
 
 
 def ARR_V():
@@ -213,7 +221,7 @@ def observe_call(op, s):
             p = X.parse(s)
             return ('sets', tuple(sorted(map(str, x)) for x in map(tuple, sets_of(p))))
         if op == 'eval':
-            v, m = X.evaluator(s, FULL_V, FULL_F, FULL_S)
+            v, m = X.evaluator(s, FULL_V, _full_f(), FULL_S, max_array_dim=2)
             return ('val', repr(v)) + _meta(m)
         if op == 'evalarr':
             v, m = X.evaluator(s, ARR_V(), FULL_F, FULL_S, max_array_dim=2)       # x, y vectors: [x, y] is a matrix
@@ -232,8 +240,12 @@ def observe_call(op, s):
             return ('val', repr(v)) + _meta(m)
         if op == 'grade':
             def body(ch):
-                g = FormulaGrader(answers='x+y', variables=['x', 'y', 'X'], user_functions={'f': lambda t: t + 1},
-                                  metric_suffixes=True, samples=2)
+                # every valid string of the alphabet is an accepted answer, so that the post-evaluation checks of a
+                # correct submission run too
+                g = MatrixGrader(answers=('x+y', 'f(x)', 'sin(x)+sin(y)', 'x', '2k', 'X+y', '[x, y]'),
+                                 variables=['x', 'y', 'X'], user_functions={'f': lambda t: t + 1},
+                                 metric_suffixes=True, samples=2, max_array_dim=2,
+                                 answer_shape_mismatch={'is_raised': False})
                 return g(None, s)
             ch, out = chooser.run_with(body)
             return ('graded', out['ok'], out['grade_decimal'])
@@ -259,6 +271,14 @@ class ParserHistory(BFSFamily):
             'alphabet with valid, space-variant and malformed strings; to closure; transition oracle = same call on a '
             'brand-new parser; state invariant = scratch sets empty and cached sets equal by-construction sets')
 
+    def __init__(self, mode='main'):
+        self.mode = mode
+        if mode == 'grading':
+            self.name = 'parser_history_grading_bfs'
+            self.rule = ('explicit-state search over call histories on the shared parser: events = {parse, eval, grade with a '
+                         'MatrixGrader that accepts the string} x %r; to closure; transition oracle = same call on a brand-new '
+                         'parser in the pristine library state' % (GRADE_STRS,))
+
     def setup(self, tier):
         self.tier = tier
         self.fresh = {}
@@ -275,6 +295,13 @@ class ParserHistory(BFSFamily):
         for s2 in ARRAY_STRS:
             for op in ['parse', 'eval', 'evalarr', 'evaldim1', 'evalinf']:
                 if (op, s2) not in evs:
+                    evs.append((op, s2))
+        if self.mode == 'grading':
+            # grading (a consumer of the reported names, and of process-wide floating-point error handling) on a small
+            # alphabet of its own, so that the product with the main alphabet is not explored
+            evs = []
+            for s2 in GRADE_STRS:
+                for op in ['parse', 'eval', 'grade']:
                     evs.append((op, s2))
         return evs
 
@@ -341,4 +368,5 @@ def families(tier):
         NameSets('brace_tokens', BRACE_TOKENS, {'quick': 5, 'thorough': 6}),
         ExtraNames(),
         ParserHistory(),
+        ParserHistory('grading'),
     ]
